@@ -9,11 +9,17 @@ Model/Registry.lean — C19: IANA `.info` lookup and the IEEE index parsers / re
 (c) `parseRecord`, `lookupRows`, `ouiRecords`, `iabRecord`
                                         netaddr/eui/__init__.py `OUI.__init__/_parse_data`, `IAB.__init__/_parse_data`,
                                         netaddr/eui/ieee.py `load_index`
+(d) `withinBoundsObj`, `queryObjD`      `.info` is a `BaseIP` property (netaddr/ip/__init__.py:228-236): the same
+                                        `iana.query` run on an `IPNetwork` / `IPRange` (block-in-block `_within_bounds`,
+                                        `is_multicast()` of a block); containment is the C04 model (`Model/Contains.lean`)
+(e) `euiOui`, `euiIab`, `euiInfo`       netaddr/eui/__init__.py `EUI.oui`, `EUI.is_iab`, `EUI.iab`, `EUI.info`,
+                                        `OUI.__init__` (int branch), `OUI.registration`, `IAB.split_iab_mac`
 
 Core Lean only.  Bytes are `Nat` (0..255), text after `.decode('UTF-8')` is `List Char`.
 -/
 import NetaddrVerif.Model.Basic
 import NetaddrVerif.Model.PyRuntime
+import NetaddrVerif.Model.Contains
 import NetaddrVerif.Gen.Iana
 namespace NV.Registry
 
@@ -397,5 +403,154 @@ def iabRecord (read : Nat → Nat → List Char) (index : List (Nat × Nat × Na
   | (off, size) :: _ => do
       let p ← parseRecord (read off size)
       pure (off, size, p)
+
+/-! ## (d) `.info` of any `BaseIP` object (address, network, range)
+
+`BaseIP.info` (netaddr/ip/__init__.py:228-236) is `DictDotLookup(query(self))` for `IPAddress`, `IPNetwork`
+and `IPRange` alike (`IPGlob` is an `IPRange`).  `query` (netaddr/ip/iana.py:420-445) reads `ip_addr.version`,
+calls `_within_bounds(ip_addr, key)` per dict entry and `ip_addr.is_multicast()`; all three exist on every
+`BaseIP`.  The operand is `Contains.Obj` and the containment tests are C04's `netContains` / `rngContains`. -/
+
+/-- `_within_bounds(ip, ip_range)` (netaddr/ip/iana.py:406-417) for any `BaseIP` operand `ip`:
+    * key has `.first` (IPNetwork / IPRange): `ip in ip_range` = `IPNetwork.__contains__` / `IPRange.__contains__`
+      with an address, network or range operand;
+    * key has `.value` (IPAddress): `ip == ip_range` = `BaseIP.__eq__` on `key()`: an address has the 2-tuple
+      `(version, value)`, a network or range the 3-tuple `(version, first, last)`; tuples of different length are
+      never equal, so a block never matches a single-address key (not even a /32 or a one-address range). -/
+def withinBoundsObj (ip : Contains.Obj) : Key → Bool
+  | .net n => Contains.netContains n ip
+  | .rng r => Contains.rngContains r ip
+  | .addr a =>
+    match ip with
+    | .addr b => b.ver == a.ver && b.val == a.val
+    | _ => false
+
+/-- `BaseIP.is_multicast()` (netaddr/ip/__init__.py:153-158) on an IPv4 object: `self in IPV4_MULTICAST`,
+    i.e. `IPNetwork.__contains__` with whatever kind of operand `self` is -/
+def isMulticastObj4 (ip : Contains.Obj) : Bool := withinBoundsObj ip multicastNet
+
+/-- the `for key, record in dict.items(): if _within_bounds(ip, key): info.setdefault(k, []); info[k].append(record)`
+    scan with `acc` = the current state of `info.get(k)` (as `scanD`, any operand kind) -/
+def scanObjD (ip : Contains.Obj) : List Rec → Option (List Rec) → Option (List Rec)
+  | [], acc => acc
+  | r :: t, acc =>
+    if withinBoundsObj ip r.key then
+      let cur := match acc with | none => [] | some l => l
+      scanObjD ip t (some (cur ++ [r]))
+    else scanObjD ip t acc
+
+/-- `iana.query(ip)` for any `BaseIP` object, as the dict it returns (what `.info` wraps) -/
+def queryObjD (T : Tables) (ip : Contains.Obj) : InfoD :=
+  if ip.ver = 4 then
+    { ipv4 := scanObjD ip T.ipv4 none
+      mcast := if isMulticastObj4 ip then scanObjD ip T.mcast none else none
+      ipv6 := none, ipv6u := none }
+  else if ip.ver = 6 then
+    { ipv6 := scanObjD ip T.ipv6 none
+      ipv6u := scanObjD ip T.ipv6u none
+      ipv4 := none, mcast := none }
+  else { ipv4 := none, ipv6 := none, ipv6u := none, mcast := none }
+
+/-! ## (e) `EUI.oui`, `EUI.iab`, `EUI.info`
+
+An `EUI` is `(ver, val)` with `ver` = `self._module.version` (48 or 64) and `val` = `self._value`; every one
+of the three properties reads `self._value` / `self.value` at the moment of the call and builds a NEW `OUI` /
+`IAB` object from it (nothing is kept on the `EUI`). -/
+
+/-- `IAB.IAB_EUI_VALUES` (netaddr/eui/__init__.py:185) -/
+def iabEuiValues : List Nat := [0x0050c2, 0x40d855]
+
+/-- the argument of `OUI(...)` in `EUI.oui` (netaddr/eui/__init__.py:483-489): `self.value >> 24` (EUI-48),
+    `self.value >> 40` (EUI-64); `none` = neither branch taken, the property returns `None` -/
+def euiOuiArg (ver val : Nat) : Option Nat :=
+  if ver = 48 then some (val >>> 24) else if ver = 64 then some (val >>> 40) else none
+
+/-- `EUI.is_iab()` (netaddr/eui/__init__.py:499-504): `(self._value >> 24) in IAB.IAB_EUI_VALUES` resp. `>> 40`;
+    `None` (falsy) when neither branch is taken -/
+def euiIsIab (ver val : Nat) : Bool :=
+  if ver = 48 then iabEuiValues.contains (val >>> 24)
+  else if ver = 64 then iabEuiValues.contains (val >>> 40)
+  else false
+
+/-- the argument of `IAB(...)` in `EUI.iab` (netaddr/eui/__init__.py:512-516): `self._value >> 12` resp. `>> 28` -/
+def euiIabArg (ver val : Nat) : Option Nat :=
+  if ver = 48 then some (val >>> 12) else if ver = 64 then some (val >>> 28) else none
+
+/-- the `_is_int(oui)` branch of `OUI.__init__` (netaddr/eui/__init__.py:85-89): `0 <= oui <= 0xffffff` or ValueError -/
+def ouiCtorInt (v : Nat) : R Nat := if v ≤ 0xffffff then .ok v else .error .value
+
+/-- `IAB.split_iab_mac(eui_int, strict)` (netaddr/eui/__init__.py:195-219) for `eui_int >= 0` -/
+def splitIabMac (v : Nat) (strict : Bool) : R (Nat × Nat) :=
+  if iabEuiValues.contains (v >>> 12) then .ok (v, 0)
+  else
+    let userMask := 2 ^ 12 - 1
+    let iabMask := (2 ^ 48 - 1) ^^^ userMask
+    let iabBits := v >>> 12
+    let userBits := (v ||| iabMask) - iabMask
+    if iabEuiValues.contains (iabBits >>> 12) then
+      if strict && userBits != 0 then .error .value else .ok (iabBits, userBits)
+    else .error .value
+
+/-- `OUI(v)` for an int `v`, reading the registry: the registrations of `v` (one per index row) -/
+def ouiOfInt (read : Nat → Nat → List Char) (index : List (Nat × Nat × Nat)) (v : Nat) :
+    R (List (Nat × Nat × Parsed)) := do
+  let v ← ouiCtorInt v
+  ouiRecords read index v
+
+/-- `IAB(v)` (`strict=False`) for an int `v`: the registration of the first index row -/
+def iabOfInt (read : Nat → Nat → List Char) (index : List (Nat × Nat × Nat)) (v : Nat) :
+    R (Nat × Nat × Parsed) := do
+  let (iab, _) ← splitIabMac v false
+  iabRecord read index iab
+
+/-- `EUI.oui`: `none` = the property returned `None` (no branch taken); otherwise `OUI(arg)` -/
+def euiOui (read : Nat → Nat → List Char) (index : List (Nat × Nat × Nat)) (ver val : Nat) :
+    R (Option (List (Nat × Nat × Parsed))) :=
+  match euiOuiArg ver val with
+  | none => .ok none
+  | some a => do
+    let rs ← ouiOfInt read index a
+    pure (some rs)
+
+/-- `EUI.iab`: `None` unless `is_iab()`; then `IAB(arg)` -/
+def euiIab (read : Nat → Nat → List Char) (index : List (Nat × Nat × Nat)) (ver val : Nat) :
+    R (Option (Nat × Nat × Parsed)) :=
+  if euiIsIab ver val then
+    match euiIabArg ver val with
+    | none => .ok none
+    | some a => do
+      let r ← iabOfInt read index a
+      pure (some r)
+  else .ok none
+
+/-- `OUI.registration(index=0)`: `self.records[0]` (IndexError on an empty list; `OUI.__init__` never leaves
+    one: it raises NotRegisteredError instead) -/
+def registration0 (rs : List (Nat × Nat × Parsed)) : R (Nat × Nat × Parsed) :=
+  match rs with
+  | [] => .error .index
+  | r :: _ => .ok r
+
+/-- the dict `EUI.info` wraps: key `'OUI'` always, key `'IAB'` iff `is_iab()` -/
+structure EuiInfo where
+  oui : Nat × Nat × Parsed
+  iab : Option (Nat × Nat × Parsed)
+deriving DecidableEq, Repr, Inhabited
+
+/-- `EUI.info` (netaddr/eui/__init__.py:729-739):
+    `data = {'OUI': self.oui.registration()}; if self.is_iab(): data['IAB'] = self.iab.registration()`.
+    The OUI lookup comes first, so its NotRegisteredError wins; `None.registration()` is AttributeError
+    (`Err.other`).  `readO/indexO` = oui.txt / OUI_INDEX, `readI/indexI` = iab.txt / IAB_INDEX. -/
+def euiInfo (readO : Nat → Nat → List Char) (indexO : List (Nat × Nat × Nat))
+    (readI : Nat → Nat → List Char) (indexI : List (Nat × Nat × Nat)) (ver val : Nat) : R EuiInfo := do
+  let o ← euiOui readO indexO ver val
+  let r0 ← match o with
+    | none => .error .other
+    | some rs => registration0 rs
+  if euiIsIab ver val then
+    let i ← euiIab readI indexI ver val
+    match i with
+    | none => .error .other
+    | some r => pure ⟨r0, some r⟩
+  else pure ⟨r0, none⟩
 
 end NV.Registry
